@@ -189,6 +189,13 @@ def run_case(route, shape, bpv, bs, d, idx):
                         if not bits_equal(r.get_trace(t_), want[t_ // n1, t_ % n1]):
                             R.violation('oracle', inp, f'get_trace({t_}) differs from the ZFP image of the edge-extended source although read_volume() agrees')
                             break
+                    # sample windows of a trace (from the second disk block on when the trace is longer than one; interior)
+                    bz_ = int(r.blockshape[2])
+                    for t_ in sorted({0, n0 * n1 - 1, (n0 * n1) // 2}):
+                        for a_, b_ in {(bz_, n2) if n2 > bz_ else (n2 // 2, n2), (1, n2 - 1), (min(n2 - 1, bz_ + 1), n2), (n2 // 3, n2 // 3 + 1)}:
+                            if 0 <= a_ < b_ <= n2 and not bits_equal(r.get_trace(t_, a_, b_), want[t_ // n1, t_ % n1, a_:b_]):
+                                R.violation('oracle', dict(inp, call=f'get_trace({t_}, {a_}, {b_})'), f'get_trace({t_}, {a_}, {b_}) differs from that window of the ZFP image of the edge-extended source although read_volume() agrees')
+                                break
                     if not bits_equal(r.read_correlated_diagonal(0), np.stack([want[k_, k_] for k_ in range(min(n0, n1))])):
                         R.violation('oracle', inp, 'read_correlated_diagonal(0) differs from the ZFP image of the edge-extended source although read_volume() agrees')
                 except Exception as e_:
